@@ -432,6 +432,25 @@ def batt_cases(ctx, n_sys, faults):
                     cases.append(drv_batt.run_batt(copy_system(s1), "VBAT", 3.0, p, d, len(cases), fail_at=f))
     except Exception:
         pass
+    # fixed scenarios: a battery with a flat voltage whose impedance rises (the same voltage is seen again with another
+    # impedance), feeding loads whose current depends on the supply impedance - without and with phases
+    try:
+        with warnings.catch_warnings():
+            warnings.simplefilter("ignore")
+            for with_phases in (False, True):
+                s2 = System("plateau", C.Source("cell", vo=3.7, rs=0.1))
+                s2.add_comp("cell", comp=C.Converter("buck", vo=1.8, eff=0.85, iq=1e-5))
+                s2.add_comp("buck", comp=C.PLoad("soc", pwr=0.4, pwrs=0.001))
+                s2.add_comp("cell", comp=C.RLoad("bleed", rs=200.0))
+                if with_phases:
+                    s2.set_sys_phases({"on": 30.0, "idle": 120.0})
+                    s2.set_comp_phases("soc", {"on": 0.6})
+                for f in ([None] + ([("deplete", 3)] if faults else [])):
+                    p, d = drv_batt.numeric_model("plateau", 0.004 if with_phases else 0.05, 3.6, 0.3, rng)
+                    cases.append(drv_batt.run_batt(copy_system(s2), "cell", 2.0, p, d, len(cases), fail_at=f,
+                                                   ref_every=(1 if with_phases else 23)))
+    except Exception:
+        pass
     for st in behs:
         if n >= n_sys:
             break
@@ -532,7 +551,7 @@ def batt_cases(ctx, n_sys, faults):
             p, d = fresh()
             sc = copy_system(s)
             cases.append(drv_batt.run_batt(sc, batref, cutoff, p, d, len(cases), fail_at=f,
-                                           ref_every=(1 if phases else 97)))
+                                           ref_every=(1 if phases else 23 if kind == "plateau" else 97)))
         # the battery addressed through its rail name on the system as saved and loaded again (registries re-created in
         # document order)
         if brail and cap0 > 0:
